@@ -405,6 +405,7 @@ def run_check(prop: str, tier: str, seed: int) -> int:
     results: List[Dict[str, Any]] = []
     harness_errors: List[str] = []
     crashes: List[Dict[str, Any]] = []
+    inconclusive: List[str] = []
     try:
         max_par = int(os.environ.get("VERIF_JOBS", "16" if tier == "thorough" else "8"))
         for phase in mod.phases(tier):
@@ -440,9 +441,20 @@ def run_check(prop: str, tier: str, seed: int) -> int:
                         if rc is not None and rc < 0 and os.path.exists(jpath):
                             # the SUT killed the interpreter (abort / segfault) while running this case
                             cur = json.load(open(jpath))
-                            crashes.append({"bucket": f"process-crash:signal{-rc}", "check": cur["check"], "case": cur["case"],
-                                            "message": f"the process died with signal {-rc} while running this case: {tail[-300:]}",
-                                            "detail": None, "size": len(canon(cur["case"]))})
+                            entry = {"bucket": f"process-crash:signal{-rc}", "check": cur["check"], "case": cur["case"],
+                                     "message": f"the process died with signal {-rc} while running this case: {tail[-300:]}",
+                                     "detail": None, "size": len(canon(cur["case"]))}
+                            if phase.params.get("crash_is_violation"):
+                                crashes.append(entry)
+                            else:
+                                # an abort inside the solver library on a case whose property verdict is about model
+                                # state: inconclusive for this property, kept for inspection, never a VIOLATION
+                                os.makedirs(os.path.join(ROOT, "out"), exist_ok=True)
+                                cpath = os.path.join("out", f"{prop}-inconclusive-crash-seed{seed}-{phase.name}{k}.json")
+                                with open(os.path.join(ROOT, cpath), "w") as fh:
+                                    json.dump({"property": prop, **{kk: entry[kk] for kk in ("check", "bucket", "message")},
+                                               "case": json.loads(canon(entry["case"]))}, fh, indent=1)
+                                inconclusive.append(f"{phase.name}[{k}] signal {-rc}: {tail[-160:].strip()} (case saved to {cpath})")
                         else:
                             harness_errors.append(f"{phase.name}[{k}] died without result (rc={rc}): {tail}")
                         continue
@@ -519,6 +531,7 @@ def run_check(prop: str, tier: str, seed: int) -> int:
             "suppressed_after_first_report": dict(suppressed),
             "notes": notes[:20],
             "harness_errors": harness_errors[:5],
+            "inconclusive_solver_crashes": inconclusive[:10],
             "engine": _versions(),
         },
         "assumptions": list(mod.ASSUMPTIONS),
@@ -532,6 +545,8 @@ def run_check(prop: str, tier: str, seed: int) -> int:
         with open(os.path.join(ROOT, "evidence", f"{prop}.json"), "w") as fh:
             json.dump(evidence, fh, indent=1, sort_keys=True)
 
+    for line in inconclusive:
+        print("NOTE: inconclusive (solver library aborted the process):", line)
     for line in known_lines:
         print(line)
     for line in vio_lines:
